@@ -357,6 +357,17 @@ def collect(ck, n):
             r["timeout"] = case["timeout"]
             r["fault"] = case["fault"]
             out.append(r)
+    # a scenario that is to hang past a 0.05 s startup timeout must get as far as hanging within those 0.05 s; on
+    # a machine that stalls for that long it does not, which says nothing about asphalt: run those again with
+    # more room
+    again = [i for i, r in enumerate(out) if "crash" not in r and r.get("fault") == "Hang"
+             and not any(o[0] in ("Hang", "Fail", "Sig", "Crash") for o in r["log"])]
+    if again:
+        redo = [dict({k: out[i][k] for k in ("backend", "cli", "tree", "after", "ending")}, timeout=1.0) for i in again]
+        rr = ck.run_impl("impl_run.py", [{"cases": redo}], timeout=600)[0]
+        for i, r2 in zip(again, rr.get("results", [])):
+            r2["timeout"], r2["fault"] = 1.0, "Hang"
+            out[i] = r2
     crashed = [r for r in out if "crash" in r]
     if crashed:
         ck.broke("impl-runner-crash", {k: crashed[0].get(k) for k in ("backend", "cli", "tree", "after", "ending", "crash")})
